@@ -303,10 +303,11 @@ META = {
                    "query (two distinct doubles rendered to the same decimal), every raw string hole inside a JSON string by a z3 string-language query; the "
                    "parsed document is fed to the real from_json and compared (IDs incl. quotes/backslashes/control characters/non-ASCII, nested / null / numpy "
                    "metadata, type, generated-by, creation date, every value by the solver); streamed and returned forms must parse to equal documents.",
-    'encoded': {'biom/table.py': ['to_json', 'from_json', 'default', '_to_sparse', 'list_list_to_sparse', 'iter', '__getitem__']},
+    'encoded': {'biom/table.py': ['to_json', 'from_json', 'default', '_to_sparse', 'list_list_to_sparse', 'iter', '__getitem__'],
+                'biom/parse.py': ['parse_biom_table', 'load_table'], 'biom/util.py': ['biom_open', 'is_gzip']},
     'bounds': {'quick': {'shapes': '2x2 all sparsity patterns / index orders, <=1 explicit zero', 'header strings': 'symbolic, |s| <= 4'},
                'thorough': {'shapes': '2x2, 2x3, 3x2; all id x metadata menus'}},
-    'outside': ['the json C codec for IDs / metadata (json.dumps is the real one on concrete values)', 'gzip and file handles', 'str()/repr() of a double reads back '
+    'outside': ['the json C codec for IDs / metadata (json.dumps is the real one on concrete values)', 'gzip decompression and the operating system under biom_open (replaced by checks/fsmodel.py: content kind x file name)', 'str()/repr() of a double reads back '
                 'exactly (shortest-repr axiom) -- only fixed-precision conversions are queried'],
     'assumptions': ['CPython %-formatting is correctly rounded', 'z3 Float64 / sequence theories'],
 }
